@@ -513,7 +513,7 @@ def run(ctx):
     def hook(args):
         THREAD_ERRORS.append(f"{args.thread.name if args.thread else '?'}: {args.exc_type.__name__}: {args.exc_value}")
     threading.excepthook = hook
-    n = 30 if ctx.quick else 800
+    n = 30 if ctx.quick else 300
     length = 20 if ctx.quick else 60
     for i in range(n):
         run_ = Run(ctx)
